@@ -1,7 +1,7 @@
 """Seeded generation of worlds and tickets (the only place a PRNG is used)."""
 import random
 
-ERROR_FORMS = ["default", "default", "class", "instance", "factory"]
+ERROR_FORMS = ["default", "default", "default", "class", "class", "instance", "instance", "factory", "factory", "falsy_instance"]
 EXC_FAULTS = ["FaultError", "FaultBase", "KeyboardInterrupt", "SystemExit", "GeneratorExit", "RecursionError", "MemoryError", "AssertionError", "KeyError", "AttributeError"]
 
 
